@@ -1793,3 +1793,44 @@ fn civil_oracle_65536_69631() {
 fn civil_oracle_69632_73727() {
     civil_range(69632, 73727);
 }
+fn tol_1900_sym(e_lo: i32, e_hi: i32) {
+    let e: i32 = kani::any();
+    kani::assume(e_lo <= e && e <= e_hi);
+    tol_1900(e);
+}
+fn tol_1900_sel(e_lo: i32, e_hi: i32) {
+    let sel: i32 = kani::any();
+    kani::assume(e_lo <= sel && sel <= e_hi);
+    let mut e = e_lo;
+    while e <= e_hi {
+        if sel == e {
+            tol_1900(e);
+        }
+        e += 1;
+    }
+}
+#[kani::proof]
+#[kani::stub(chrono::TimeDelta::milliseconds, rec_milliseconds)]
+fn y_tol_sym_11_15() {
+    tol_1900_sym(11, 15);
+}
+#[kani::proof]
+#[kani::stub(chrono::TimeDelta::milliseconds, rec_milliseconds)]
+#[kani::unwind(7)]
+fn y_tol_sel_11_15() {
+    tol_1900_sel(11, 15);
+}
+#[kani::proof]
+#[kani::stub(chrono::TimeDelta::milliseconds, rec_milliseconds)]
+fn y_days_16_18() {
+    whole_days_1900(1 << 16, (1 << 19) - 1);
+}
+#[kani::proof]
+#[kani::stub(chrono::TimeDelta::milliseconds, rec_milliseconds)]
+fn y_days_both_16_18() {
+    let n: u32 = kani::any();
+    kani::assume((1 << 16) <= n && n < (1 << 19));
+    let is_1904: bool = kani::any();
+    let ms = ms_of(n as f64, is_1904);
+    assert!(ms == (n as i64 + if is_1904 { 1462 } else { 0 }) * DAY_MS);
+}
